@@ -86,6 +86,11 @@ Definition erase_ok_b (H : nat) (pre h : nat) (bytes : str) : bool :=
 Definition cleanup_ok_b (H : nat) (hooks_before hooks_after : nat) (io_restored : bool) (bytes : str) : bool :=
   (hooks_before =? hooks_after)%nat && io_restored && vis (interp H init bytes).
 
+(* stdout/stderr are redirected exactly while the display is started: one (redirected, started)
+   observation after every operation *)
+Definition redirect_ok_b (obs : list (bool * bool)) : bool :=
+  forallb (fun p => Bool.eqb (fst p) (snd p)) obs.
+
 (* every character is a graphic character (no C0/C1 control, no ESC) *)
 Definition text_ok (l : str) : bool := forallb is_text l.
 Definition lines_ok (ls : list str) : bool := forallb text_ok ls.
